@@ -892,7 +892,12 @@ Proof.
       * apply Hunw; [eapply Inv_pop_reset; exact HI | apply Hsuf; lia | apply Hpop_sz | |];
           specialize (Hpop_phi 0 mark); lia.
       * destruct alts as [|c alts'].
-        -- eexists _, _. split; [reflexivity|]. unfold gn_post. lia.
+        -- (* a disjunct without options is handed to the work loop *)
+           eexists _, _. split; [reflexivity|]. unfold gn_post.
+           pose proof (Hpop_phi 0 mark) as HPp.
+           split; [exact Hp|]. split; [eapply Inv_pop_reset; exact HI|].
+           split; [apply lt_top_hand_ok; intros Hi; simpl in Hi; lia|]. split; [discriminate|].
+           unfold td in *. unfold pset, pend in *. lia.
         -- eexists _, _. split; [reflexivity|]. unfold gn_post.
            assert (inU (o, c)).
            { destruct Hp as [Ho Hc]. split; [exact Ho|]. simpl.
@@ -1216,6 +1221,9 @@ Proof.
       - unfold Phi in *. unfold M1 in *. unfold pset, pend in *. lia. }
     destruct (r_ty c) as [ | p' | e sz | es | ents star | ents | alts] eqn:Ety.
     7:{ (* a named or nested disjunct *)
+      destruct alts as [|a0 alts0].
+      { (* without options: it matches nothing *)
+        intros Eq. inversion Eq. subst. apply Hfin; auto. lia. }
       intros Eq. inversion Eq. subst.
       destruct Hp as [Ho Hc]. destruct (resolve_in tc c0 tcx c Hc R) as (Hrc & _ & _).
       destruct (push_disjunct_spec ((o, tcx) :: ex1) td1 (o, rep_chk c) fl1 HI2 HL2 (conj Ho Hrc)) as (Q1 & Q2 & Q3).
